@@ -146,3 +146,11 @@ func SIf(c bool, a, b string) string {
 	}
 	return b
 }
+
+// Merged evaluates a side-effect-free predicate. Symbolically all of its paths are explored
+// locally and merged into one formula (no path forks); natively it is just a call.
+func Merged(f func() bool) bool { return f() }
+
+// OrmOnTouch registers a hook run whenever the step reads or writes a new row of the table
+// (symbolic runs only; natively invariants are checked once on the whole pre-state).
+func OrmOnTouch(table string, f func()) {}
